@@ -133,6 +133,9 @@ def run(tier):
            "the ACTION table is not indexed as state * #terminals + terminal (the stride the writer uses: one row of terminals.all per state)",
            key="emitted-reader:action-stride", file="lalrpop/src/lr1/codegen/parse_table.rs", line=wp[0]["line"] if wp else 0)
 
+    # ---- construction coverage: every state contributes / is visited
+    construction_coverage(rep, f)
+
     # ---- width
     comp = []
     for bb in f.bodies.values():
@@ -199,3 +202,69 @@ def run(tier):
     rep.ob("width.bound-covers-states-and-reductions", "compile: max(states.len(), reduce_indices.len())", ok and len(mx) >= 1,
            "the width is not chosen from max(#states, #reductions)", key="width:max-args", file=b.relfile(), line=b.line, fn=b.path)
     return rep
+
+
+def loops_containing(b, block):
+    hs = {h for u, h in b.back_edges()}
+    out = []
+    for h in hs:
+        body = b.loop_body(h)
+        if block in body:
+            out.append((len(body), h, body))
+    out.sort()
+    return out
+
+
+def construction_coverage(rep, f):
+    """Two necessary structural conditions of the automaton construction (the rest of it is not decided):
+    (i) the LALR collapse merges the actions of EVERY canonical state into its LALR state -- on every iteration of
+    the loop over the LR(1) states the inner loops over its shifts, gotos and reductions are entered;
+    (ii) the lane-table work list re-reads the number of states inside the loop whose body may append states."""
+    from .core import origins
+    cb = f.one(r"^lalrpop::lr1::build_lalr::collapse_to_lalr_states$")
+    crel = cb.relfile()
+    n = 0
+    for field, callee_rx in (("reductions", r"Multimap::<K, C>::push$|::push$"), ("shifts", r"BTreeMap::<K, V, A>::insert$"), ("gotos", r"BTreeMap::<K, V, A>::insert$")):
+        sites = []
+        for bi, t in cb.calls():
+            c = callee_of(t) or ""
+            if re.search(callee_rx, c) and t["args"]:
+                names = set()
+                for d in origins(cb, t["args"][0]):
+                    names |= set(d[-1]) if isinstance(d[-1], tuple) else set()
+                if field in names:
+                    sites.append(bi)
+        for bi in sites:
+            ls = loops_containing(cb, bi)
+            if len(ls) < 2:
+                continue
+            n += 1
+            inner_h = ls[0][1]
+            outer_h = ls[-1][1]
+            backs = [u for u, h in cb.back_edges() if h == outer_h]
+            ok = all(cb.dominates(inner_h, u) for u in backs)
+            rep.ob("coverage.lalr-collapse-merges-every-state", "collapse_to_lalr_states: %s merged at bb%d (inner loop bb%d, outer loop bb%d)" % (field, bi, inner_h, outer_h), ok,
+                   "an iteration of the loop over the canonical LR(1) states can skip merging their %s into the LALR state: lookaheads of later "
+                   "states with the same core are lost (valid input is rejected) " % field, key="lalr-merge-skippable:%s" % field, file=crel, line=cb.blocks[bi]["t"]["ln"], fn=cb.path)
+    rep.floor("LALR merge sites (shifts/gotos/reductions)", n, 3)
+    lc = f.one(r"^lalrpop::lr1::lane_table::construct::LaneTableConstruct::<'grammar>::construct$")
+    lrel = lc.relfile()
+    res = [(bi, t) for bi, t in lc.calls() if (callee_of(t) or "").endswith("::resolve_inconsistencies")]
+    if not rep.floor("calls of resolve_inconsistencies in construct", len(res), 1):
+        return
+    bi, t = res[0]
+    S = set()
+    for a in t["args"]:
+        for l in core.slice_locals(lc, [a], transparent=lambda c: bool(c) and c.endswith("deref_mut")):
+            if lc.local_ty(l).startswith("std::vec::Vec<lalrpop::lr1::core::State<"):
+                S.add(l)
+    ls = loops_containing(lc, bi)
+    ok = False
+    if ls and S:
+        body = ls[0][2]
+        for b2, t2 in lc.calls():
+            if b2 in body and (callee_of(t2) or "").endswith("Vec::<T, A>::len") and core.slice_locals(lc, [t2["args"][0]]) & S:
+                ok = True
+    rep.ob("coverage.lane-table-worklist-rereads-its-bound", "construct: states.len() evaluated inside the loop calling resolve_inconsistencies(&mut states, ..)", ok,
+           "the loop over the states is bounded by a length computed before the loop although its body can append states: states cloned while resolving "
+           "inconsistencies are never resolved themselves and keep their over-approximate lookahead", key="lane-table-bound-hoisted", file=lrel, line=t["ln"], fn=lc.path)
